@@ -46,12 +46,15 @@ GWait == LET t == CHOOSE x \in {ops[g].busy : g \in {y \in DOMAIN ops : ops[y].b
            Step([In0 EXCEPT !.op = "advance", !.ms = t - cnow], CAdvanceFx(CCur, t - cnow, tie))
 
 GReply ==
-  IF ~Quiet THEN GWait ELSE
   IF Active(CCur) = {} \/ ~conn THEN GApi
   ELSE \E g \in R(Active(CCur)) : \E which \in R(1..8) : \E old \in R(1..(nreq + 1)) :
          LET op == ops[g]
              id == IF which = 1 THEN nreq + 7 ELSE IF which = 2 THEN old ELSE op.req
-         IN \E mk \in (IF op.kind = "call" /\ which \in {3, 4, 5} THEN {"RESULTP"} ELSE W(ReplyKinds(op.kind))) :
+         \* (no second progressive result while the handler of the first is still running: it would
+         \*  hold back the client's receive loop, which the specification does not model)
+             tbusy == \E g2 \in Active(CCur) : ops[g2].req = id /\ ops[g2].busy > cnow
+         IN \E mk \in (IF op.busy > cnow \/ tbusy THEN W(<<"ERROR", "RESULT", "ERROR">>)
+                       ELSE IF op.kind = "call" /\ which \in {3, 4, 5} THEN {"RESULTP"} ELSE W(ReplyKinds(op.kind))) :
             LET a == IF mk = "RESULTP" THEN N ELSE 100 + N IN
             Step([In0 EXCEPT !.op = "reply", !.id = id, !.mk = mk, !.a = a], ReplyFx(CCur, id, mk, a))
 
